@@ -145,6 +145,11 @@ def crash_symptom(stage):
     return "crash_or_hang_when_used_after_fault"
 
 
+def component(fn):
+    """class of the interrupted function: findings about damage / crashes are grouped per (class, symptom); leaks are not"""
+    return fn.rsplit("::", 1)[0] if "::" in fn else fn
+
+
 class Finding:
     __slots__ = ("site", "tags", "what", "line")
 
@@ -164,10 +169,12 @@ def classify_fault(tok, line, thrower_of_crash=None):
         fn = interrupted_function(thr) if thr else "?"
         if thr.startswith("gmp:__gmpz_mul;"):
             return [Finding("gmp:mpz_mul", ["destination_released_before_new_limbs_are_allocated", "crash_" + stage, sig], "crash after a failing allocation inside mpz_mul", line)]
+        if kv.get("k") == "-1" and sig == "HANG":
+            return [Finding("slow", ["scenario_too_slow_without_fault"], "", line)]      # counted, not a violation (see run())
         if kv.get("k") == "-1":
-            out.append(Finding("%s:%s" % (kind, name), ["crash_without_fault", sig], "crashes without any fault injected (%s in %s)" % (sig, stage), line))
+            out.append(Finding("unfaulted:" + name, ["crash_without_fault", sig], "crashes without any fault injected (%s in %s)" % (sig, stage), line))
         else:
-            out.append(Finding(fn, [crash_symptom(stage), "crash_%s_%s" % (stage, sig), "%s_fault" % kind, "crash_" + stage, sig, "domain_" + dom],
+            out.append(Finding(component(fn), [crash_symptom(stage), "in_" + fn, "crash_%s_%s" % (stage, sig), "%s_fault" % kind, "crash_" + stage, sig, "domain_" + dom],
                                "%s at %s after a fault inside %s" % (sig, stage, fn), line))
         return out
     thrower = kv.get("thrower", "")
@@ -194,14 +201,14 @@ def classify_fault(tok, line, thrower_of_crash=None):
         for (site, pred), ex in roots.items():
             out.append(Finding(site, [pred, "%s_fault" % kind], "leak (%d operator-new blocks, %d GMP blocks) e.g. allocated at %s" % (ln, lg, ex[:160]), line))
     if int(kv.get("bad_free", 0)) + int(kv.get("bad_origin", 0)) > 0:
-        out.append(Finding(fn, ["destination_released_before_new_limbs_are_allocated" if fn == "gmp:mpz_mul" else "double_free_or_unknown_block", "%s_fault" % kind],
+        out.append(Finding(component(fn), ["destination_released_before_new_limbs_are_allocated" if fn == "gmp:mpz_mul" else "double_free_or_unknown_block", "in_" + fn, "%s_fault" % kind],
                            "free of a block that is not live after a fault inside " + fn, line))
     for t in tok:
         if t.startswith("!"):
             if fn == "gmp:mpz_mul":
                 out.append(Finding(fn, ["destination_released_before_new_limbs_are_allocated", t[1:]], "damage after a failing allocation inside mpz_mul", line))
                 continue
-            out.append(Finding(fn, [symptom(t[1:]), t[1:], "%s_fault" % kind, "domain_" + dom], "%s after a fault inside %s" % (t[1:], fn), line))
+            out.append(Finding(component(fn), [symptom(t[1:]), "in_" + fn, t[1:], "%s_fault" % kind, "domain_" + dom], "%s after a fault inside %s" % (t[1:], fn), line))
     if kv.get("fired") == "1" and kv.get("result") == "completed" and not out:
         pass
     return out
@@ -345,8 +352,12 @@ def run(ctx):
                     if int(kv.get("events", 0)) > 0:
                         tot[mode + "_scenarios_with_events"] += 1
                     bad = [x for x in t if x.startswith("!")]
-                    if bad or kv.get("fault_done") != "1" or kv.get("dry_bad_free") not in ("0", None):
-                        report(Finding("%s:%s" % (t[1], t[3]), ["fails_without_fault"] + [b[1:] for b in bad], "scenario fails without any fault injected: " + l[:240], l), mode, {"line": l})
+                    if kv.get("fault_done") != "1" and bad == ["!exception_outside_armed_call_invalid_argument"]:
+                        # the seeded data do not meet the precondition of the operation under test (e.g. a widening whose
+                        # argument is not contained): the reference call itself is rejected; nothing is enumerated
+                        stats["scenarios_skipped_precondition_not_met"] += 1
+                    elif bad or kv.get("fault_done") != "1" or kv.get("dry_bad_free") not in ("0", None):
+                        report(Finding("unfaulted:" + t[3], ["fails_without_fault"] + [b[1:] for b in bad], "scenario fails without any fault injected: " + l[:240], l), mode, {"line": l})
                 elif t[0] == "done":
                     kv = dict(x.split("=", 1) for x in t[4:] if "=" in x)
                     runs = int(kv.get("runs", 0)); fired = int(kv.get("fired_new", 0)) + int(kv.get("fired_gmp", 0))
@@ -389,6 +400,9 @@ def run(ctx):
     for key, (cnt, f, extra) in sorted(viol.items(), key=lambda kv: kv[0]):
         if f.site == "gmpxx":
             stats["leaks_inside_gmpxx_runs"] = cnt
+            continue
+        if f.site == "slow":
+            stats["scenarios_skipped_too_slow_without_fault"] = cnt
             continue
         rep = {"site": f.site, "tags": f.tags, "occurrences": cnt}
         rep.update(extra)
